@@ -923,6 +923,41 @@ pub fn families_c14(subjects: &[Subj]) -> Vec<Pair> {
 			}
 		}
 	}
+	// K9d: a key (or a guard that carries one) parked as the *payload* of a lock or
+	// collection must not travel with it: such a lock is neither `Send` nor `Sync`
+	// (`ThreadKey` is `Sync` but not `Send`, so a `Sync` bound that forgets
+	// `T: Send` lets another thread take the key out through `&mut T`)
+	{
+		let payloads = [("ThreadKey", "ThreadKey"), ("Option<ThreadKey>", "Option<ThreadKey>")];
+		let locks: Vec<(&str, &str)> = vec![
+			("Mutex", "Mutex<$P>"),
+			("RwLock", "RwLock<$P>"),
+			("Poisonable<Mutex>", "Poisonable<Mutex<$P>>"),
+			("Poisonable<RwLock>", "Poisonable<RwLock<$P>>"),
+			("LockCollection<(RwLock, Mutex)>", "LockCollection<(RwLock<$P>, Mutex<i32>)>"),
+			("OwnedLockCollection<[RwLock; 2]>", "OwnedLockCollection<[RwLock<$P>; 2]>"),
+			("RetryingLockCollection<Vec<RwLock>>", "RetryingLockCollection<Vec<RwLock<$P>>>"),
+			("&RwLock", "&'static RwLock<$P>"),
+			("Arc<RwLock>", "Arc<RwLock<$P>>"),
+		];
+		for (pn, pty) in payloads {
+			for (ln, lty) in &locks {
+				let ty = lty.replace("$P", pty);
+				for bound in ["Send", "Sync"] {
+					// `&T: Sync` iff `T: Sync`, `&T: Send` iff `T: Sync`; Arc<T> needs both: all rejected
+					let prog = |b: &str| format!("{PRELUDE}\nfn need<X{b}>() {{}}\npub fn probe() {{\n//<<\n    need::<{ty}>();\n//>>\n}}\n");
+					v.push(Pair {
+						prop: "C14".into(),
+						family: "K9-key-carrying-payload-travels-with-its-lock".into(),
+						name: format!("{ln} of {pn}: {bound}"),
+						twin: prog(": ?Sized"),
+						offending: prog(&format!(": {bound}")),
+						std_offending: None,
+					});
+				}
+			}
+		}
+	}
 	// K3b: nothing that carries a key or a hold can be duplicated or conjured up
 	{
 		let header = format!(
